@@ -382,6 +382,74 @@ def default_methods_worker(N):
     return {"counts": {"evaluations": ran}, "violations": viol}
 
 
+def cross_model_worker(N):
+    """Two models alive in one process, each with its own kind of pool (none / user-supplied
+    in-process pool / nessai's own n_pool fork pool), evaluated alternately: A, configure B, B, A
+    again.  Whatever nessai keeps at module level for its pool wrappers must not let one model
+    answer with the other's functions."""
+    import multiprocessing.pool as mpp
+    from nessai.utils.multiprocessing import initialise_pool_variables
+
+    errs, ran = [], 0
+    kinds = ("none", "fake", "thread", "n_pool")
+
+    def setup(m, kind):
+        if kind == "fake":
+            initialise_pool_variables(m)
+            m.configure_pool(pool=FakePool(2, perm_id=0, sized=True))
+        elif kind == "thread":
+            initialise_pool_variables(m)
+            m.configure_pool(pool=mpp.ThreadPool(2))
+        elif kind == "n_pool":
+            m.configure_pool(n_pool=2)
+
+    class B_(object):
+        pass
+
+    for ka in kinds:
+        # B never uses an in-process pool of its own: that requires initialise_pool_variables(B) in
+        # this process, which by nessai's documented design re-points the (single) module-level model
+        for kb in ("none", "n_pool"):
+            a = make_model("arr", True)
+            b = make_model("arr", True)
+            # B is a different model: its functions are those of A shifted by a constant
+            ll_a, lp_a = a.log_likelihood, a.log_prior
+            b.log_likelihood = lambda x, _f=b.log_likelihood: _f(x) + 7.0
+            b.log_prior = lambda x, _f=b.log_prior: _f(x) - 3.0
+            a.vectorised_likelihood = a.vectorised_prior = True
+            b.vectorised_likelihood = b.vectorised_prior = False if kb == "n_pool" else True
+            x = points(min(N, 6), False)
+            ref_a = (np.asarray(ll_a(x), dtype=float), np.asarray(lp_a(x), dtype=float))
+            try:
+                setup(a, ka)
+                out1 = (np.asarray(a.batch_evaluate_log_likelihood(x), dtype=float), np.asarray(a.batch_evaluate_log_prior(x), dtype=float))
+                setup(b, kb)
+                outb = np.asarray(b.batch_evaluate_log_likelihood(x), dtype=float)
+                out2 = (np.asarray(a.batch_evaluate_log_likelihood(x), dtype=float), np.asarray(a.batch_evaluate_log_prior(x), dtype=float))
+            except Exception as e:
+                errs.append((f"cross-model:raises-{type(e).__name__}", f"{e} (A pool {ka}, B pool {kb})"))
+                continue
+            finally:
+                for m in (a, b):
+                    try:
+                        m.close_pool()
+                    except Exception:
+                        pass
+            ran += 3
+            if out1[0].tobytes() != ref_a[0].tobytes() or out1[1].tobytes() != ref_a[1].tobytes():
+                errs.append(("cross-model:first-evaluation-wrong", f"A pool {ka}"))
+            if outb.tobytes() != (ref_a[0] + 7.0).tobytes():
+                errs.append(("cross-model:second-model-answers-with-other-functions", f"A pool {ka}, B pool {kb}: {outb} vs {ref_a[0] + 7.0}"))
+            if out2[0].tobytes() != ref_a[0].tobytes() or out2[1].tobytes() != ref_a[1].tobytes():
+                errs.append(("cross-model:first-model-answers-with-the-second-model's-functions", f"A pool {ka}, B pool {kb}: logL {out2[0]} vs {ref_a[0]}, logP {out2[1]} vs {ref_a[1]}"))
+    seen, viol = set(), []
+    for k, d in errs:
+        if k not in seen:
+            seen.add(k)
+            viol.append((k, d, {"case": d}))
+    return {"counts": {"evaluations": ran}, "violations": viol}
+
+
 def real_pool_case(item):
     """Real multiprocessing pools (fork): created by nessai (n_pool) or user supplied."""
     from nessai.utils.multiprocessing import initialise_pool_variables
@@ -449,8 +517,10 @@ def run(ctx):
         ctx.merge(res)
     for it, res in ctx.pmap(default_methods_worker, [N]):
         ctx.merge(res)
+    for it, res in ctx.pmap(cross_model_worker, [N]):
+        ctx.merge(res)
     ctx.set("distinct_nontrivial", len(cases))
-    ctx.set("rule", "models that keep the inherited unit-hypercube prior, on coordinates exactly on / next to the faces of the cube; full grid: n 0..N x chunksize None|1..N+1 x pool {none, sized fake 1..4, unsized fake} x (vectorisable, return shape) x {explicit, auto-detected} vectorisation flag x {likelihood, prior, unit-hypercube prior} x unit_hypercube flag x parallelise_prior; each pooled case under every completion order (all permutations for <=4 tasks, rotations+reversal otherwise); real fork pools on a sub-grid. Distinct/non-trivial: distinct grid cells (schedules counted separately)")
+    ctx.set("rule", "two models with every pair of pool kinds (none / user in-process / thread / n_pool) evaluated alternately; models that keep the inherited unit-hypercube prior, on coordinates exactly on / next to the faces of the cube; full grid: n 0..N x chunksize None|1..N+1 x pool {none, sized fake 1..4, unsized fake} x (vectorisable, return shape) x {explicit, auto-detected} vectorisation flag x {likelihood, prior, unit-hypercube prior} x unit_hypercube flag x parallelise_prior; each pooled case under every completion order (all permutations for <=4 tasks, rotations+reversal otherwise); real fork pools on a sub-grid. Distinct/non-trivial: distinct grid cells (schedules counted separately)")
     ctx.set("bounds", dict(N=N, pool_sizes=[1, 2, 3, 4], real_pool_n=[0, 1, 5, 12]))
     ctx.set("exhaustive", True)
     ctx.sample({"n": 5, "chunksize": 2, "pool": ["sized", 3], "vectorisable": True, "fn": "log_likelihood", "unit_hypercube": True, "completion_order": [2, 0, 1]})
